@@ -24,8 +24,7 @@ def gen_cases(run):
         yield g, proc, ov, dict(target=rng.choice([1, 2, 4, 8, 16, 32, 60]), jitter=rng.uniform(0.8, 1.3))
 
 
-def main():
-    run = Run('C06')
+def body(run):
     run.trusted += ['rasterio Affine / Window float arithmetic is an observed oracle (H_monotone_bnd checked per case)']
     run.assumptions += ['H_monotone_bnd: the double image of an integer processing-grid corner is a monotone function of '
                         'the corner (checked on every case by Corr.CheckC06.bnd_monotone)']
@@ -83,8 +82,7 @@ def main():
                        'non-trivial = at least 4 blocks; distinct = distinct (geometry, proc_crs, overlap, max_block_mem)')
     run.extra['input_distribution'] = dict(geometries=len(cases), rejected=errors_seen, auto_cases=len(autos), float_window_cases=len(fw),
                                             model_nontrivial_block_cases=nt)
-    run.finish()
 
 
 if __name__ == '__main__':
-    main()
+    Run('C06').guard(body)
